@@ -35,6 +35,35 @@ def record_parallel(c, mode, n_total, procs, extra=(), corrupt=0):
     return lines
 
 
+def record_sweep(c, mode, every, procs=16, budget=20_000_000):
+    """Deterministic sweep: hint-branch family x critical dates (every `every`-th), split over `procs` harness processes."""
+    import time
+    t0 = time.time()
+
+    def one(i):
+        path = os.path.join(vlib.WORK, "%s_%s_%02d.ndjson" % (c.pid.lower(), mode, i))
+        vlib.ohv(["record", "iter", "--mode", mode, "--seed", c.seed, "--every", every, "--part", i, "--parts", procs,
+                  "--work-budget", budget], stdout_path=path, timeout=7200)
+        return path
+
+    with cf.ThreadPoolExecutor(max_workers=procs) as ex:
+        paths = list(ex.map(one, range(procs)))
+    lines = []
+    for p in paths:
+        lines += open(p).read().splitlines()
+    vlib.log('[record] %s: %d events in %.1fs' % (mode, len(lines), time.time() - t0))
+    return lines
+
+
+def renumber(lines):
+    out = []
+    for l in lines:
+        e = json.loads(l)
+        e["id"] = len(out) + 1
+        out.append(json.dumps(e))
+    return out
+
+
 def validate(c, lines, nshards, label):
     import time
     t0 = time.time()
